@@ -133,6 +133,11 @@ def dump_scalar(scalar, version=LATEST_VER):
     elif isinstance(scalar, Bin):
         return dump_bin(scalar, version=version)
     elif isinstance(scalar, XStr):
+        # Forbid version 2.0 and earlier.
+        if version < VER_3_0:
+            raise ValueError('Project Haystack version %s ' \
+                             'does not support XStr' \
+                             % version)
         return dump_xstr(scalar, version=version)
     elif isinstance(scalar, Uri):
         return dump_uri(scalar, version=version)
@@ -153,6 +158,11 @@ def dump_scalar(scalar, version=LATEST_VER):
             isinstance(scalar, int):
         return dump_decimal(scalar, version=version)
     elif isinstance(scalar, Grid):
+        # Forbid version 2.0 and earlier.
+        if version < VER_3_0:
+            raise ValueError('Project Haystack version %s ' \
+                             'does not support nested grids' \
+                             % version)
         return "<<" + dump_grid(scalar) + ">>"
     else:
         raise NotImplementedError('Unhandled case: %r' % scalar)
